@@ -3,9 +3,11 @@ from .. import bbigen
 from ..core import parse_sx, sx
 
 THEOREMS = [
-    "C07_inner_loop_terminates", "C07_chrom_terminates", "C07_ordered_disjoint", "C07_partition", "C07_stats",
+    "C07_inner_loop_terminates", "C07_chrom_terminates", "C07_ordered_disjoint", "C07_partition", "C07_stats", "C07_stats_exact",
     "C07_contributions", "C07_sections_encoded", "C07_levels_increasing", "C07_levels_increasing_two_pass",
+    "C07_file_levels_increasing", "C07_file_levels_increasing_two_pass",
     "C07_sections_ok", "C07_zoom_query_sections", "C07_zoom_query",
+    "C07_sections_sorted", "C07_chrom_ordered", "C07_level_sections_sorted",
     "C07_gap_refuted_before_fix", "C07_minmax_refuted_before_fix",
 ]
 
@@ -56,7 +58,7 @@ class C07(Prop):
             length += 1
         return items, max(length, 1)
 
-    def case(self, rng, tier, i):
+    def case1(self, rng, tier, i):
         sort_all = rng.choice([1, 1, 1, 0])
         names = bbigen.chrom_set(rng, sort_all)
         if i % 11 == 0:
@@ -79,7 +81,7 @@ class C07(Prop):
             manual = [[r, 100000]]
         elif mode == "manual-many":
             # more distinct sizes than the directory has slots (MAX_ZOOM_LEVELS = 10): the finest ten are kept
-            manual = [rng.sample(range(1, 30), rng.choice([11, 12, 15])) + rng.choice([[], [0], [3]])]
+            manual = [rng.sample(range(1, 40), rng.choice([11, 12, 15])) + rng.choice([[], [0], [3]])]
         else:
             izoom, maxz = rng.choice([1, 2, 5, 10, r]), rng.choice([1, 3, 10])
         fmode = "nice" if rng.random() < 0.8 else "any"
@@ -117,10 +119,36 @@ class C07(Prop):
         rng.shuffle(sizes)
         kind = rng.choice([0, 0, 1])
         tags.append("pass=%d" % (kind + 1))
-        return sx([kind, o, sizes, inp, queries]), tags
+        return [kind, o, sizes, inp, queries], tags, zl
+
+    WORK_CAP = 1500   # zoom records per file (the byte-level model's cost grows with records x file size)
+
+    @staticmethod
+    def work(c, zl):
+        per = {}
+        for it in c[3]:
+            b, n = per.get(bytes(it[0].encode() if isinstance(it[0], str) else it[0]), (0, 0))
+            per[bytes(it[0].encode() if isinstance(it[0], str) else it[0])] = (b + it[2] - it[1], n + 1)
+        levels = sorted(set(z for z in zl if z > 0))[:10]
+        return sum(b // r + n for r in levels for (b, n) in per.values())
+
+    def case(self, rng, tier, i):
+        for _ in range(8):
+            c, tags, zl = self.case1(rng, tier, i)
+            if self.work(c, zl) <= self.WORK_CAP:
+                return sx(c), tags
+        # still too big: keep only the values of the first chromosomes that fit
+        names = []
+        for it in c[3]:
+            if it[0] not in names: names.append(it[0])
+        while len(names) > 1 and self.work(c, zl) > self.WORK_CAP:
+            drop = names.pop()
+            c[3] = [it for it in c[3] if it[0] != drop]
+            c[4] = [q for q in c[4] if q[1] != drop]
+        return sx(c), tags + ["trimmed"]
 
     def gen(self, rng, tier):
-        n = 700 if tier == "quick" else 14000
+        n = 700 if tier == "quick" else 8000
         # the design's witnesses first (D1a, D1b) and a three-value input with a gap
         for manual, vals in (([10], [(0, 5, 1.0), (20, 25, 1.0)]), ([10], [(0, 5, 1.0), (10, 15, 100.0)]),
                              ([10], [(2, 9, 1.0), (9, 14, 3.25), (30, 31, -1.0)]), ([1], [(0, 3, 2.0), (4, 5, 0.5)]),
